@@ -171,6 +171,16 @@ def targeted(s):
         yield "separator-dropped", s[:m.start()] + s[m.end():]
 
 
+def documented_equivalent(name, m, s0):
+    """spellings the FORMAT itself declares equivalent (beyond hex case and padding bits, which the model knows):
+    django_des_crypt carries its salt twice - `crypt$<salt1>$<salt2><digest>` - and only salt2 feeds the digest; Django 1.0 wrote five
+    characters into salt1, Django 1.4 leaves it empty, so everything in salt1 after a matching two-character start is not a setting"""
+    if name == "django_des_crypt":
+        a, b = m.split("$"), s0.split("$")
+        return len(a) == 3 and len(b) == 3 and a[0] == b[0] and a[2] == b[2] and (a[1] == "" or a[1][:2] == a[2][:2])
+    return False
+
+
 def coarse(mech):
     """class of a leniency mechanism, shared between targeted probes and random mutants"""
     if "last-digit" in mech or mech.endswith(":last"):
@@ -387,6 +397,9 @@ def run(chk):
                         key = (name, kind, cname, out)
                         a = agg.setdefault(key, {"n": 0, "witness": m, "form": form})
                         a["n"] += 1
+                        if out == "True" and cname in ("verify", "ctx_verify") and documented_equivalent(name, m, s):
+                            chk.count((name, "documented-equivalent", cname))
+                            continue
                         if out == "True" and cname in ("verify", "ctx_verify"):
                             events.append({"fam": fam, "hasher": name, "kind": kind, "call": cname, "outcome": out, "padpos": padpos,
                                            "mutant": [ord(c) for c in m], "original": [ord(c) for c in s]})
@@ -453,6 +466,8 @@ def run(chk):
                 out = call1(lambda: h.verify(PW, m, **vkw))
                 total += 1
                 chk.action("targeted-" + mech.split("-")[0])
+                if out == "True" and documented_equivalent(name, m, s0):
+                    continue
                 if out == "True":
                     try:
                         same = canon0 is not None and ww.from_string(h._unwrap_hash(m) if hasattr(h, "wrapped") else m).to_string() == canon0
